@@ -4,7 +4,7 @@
 set -u
 D=$(realpath "$1"); WT=/tmp/seedconfirm
 if [ ! -d $WT ]; then git -C /repo worktree add -q --detach $WT HEAD || exit 2; fi
-cd $WT && git checkout -q -- . && git clean -fdq -e _build
+cd $WT && git checkout -q -- . && git clean -fdq -e _build && git checkout -q --detach $(git -C /repo rev-parse HEAD)
 ( cmake -G Ninja -S $WT -B $WT/_build -DGOOGLE_TEST=ON >/dev/null && cmake --build $WT/_build >/dev/null ) || { echo "clean build failed"; exit 2; }
 run_demo() { if [ -f $D/build_and_run.sh ]; then ( cd $D && timeout 600 bash ./build_and_run.sh $WT >/tmp/seedconfirm.demo.log 2>&1 ); else return 99; fi; }
 run_demo; clean_rc=$?
